@@ -505,6 +505,7 @@ class Input(object):
         if self.script_type == 'coinbase':
             self.valid = True
             return True
+        self.valid = False
         if not self.signatures:
             _logger.info("No signatures found for transaction input %d" % self.index_n)
             return False
@@ -1681,6 +1682,8 @@ class Transaction(object):
         """
 
         self.verified = False
+        for inp in self.inputs:
+            inp.valid = None
         for inp in self.inputs:
             try:
                 transaction_hash = self.signature_hash(inp.index_n, inp.hash_type, inp.witness_type)
